@@ -14,7 +14,7 @@ Require Import Blots.Num Blots.gen.Builtins Blots.Ast Blots.Value Blots.Outcome 
                Blots.Env Blots.Eval Blots.BuiltinsHof Blots.Program Blots.EvalInst Blots.EvalFull
                Blots.EvalAll Blots.BuiltinsList Blots.BuiltinsAgg Blots.BuiltinsText Blots.DisplayNum
                Blots.proofs.NoPanic Blots.proofs.NoPanicList Blots.proofs.ListLaws2
-               Blots.proofs.AggPanics Blots.proofs.DisplayNum.
+               Blots.proofs.Aggregates Blots.proofs.AggPanics Blots.proofs.DisplayNum.
 Import ListNotations.
 Open Scope list_scope.
 Open Scope nat_scope.
@@ -157,21 +157,38 @@ Proof.
     destruct (builtin_arity (agg_builtin a)); auto. }
   rewrite E in H. exact H.
 Qed.
-(* args_ok only constrains vectors of the shape [list; number]; on that shape every aggregate but
-   percentile returns without reaching a partial operation *)
-Lemma args_ok_or_shape : forall args, args_ok args \/ exists vs p, args = [VList vs; VNum p].
-Proof.
-  intros args.
-  destruct args as [|a [|b [|c r]]]; try (left; intros vs p E; discriminate E).
-  destruct a; try (left; intros vs p E; discriminate E).
-  destruct b; try (left; intros vs p E; discriminate E).
-  right; eauto.
-Qed.
+(* the aggregates other than percentile: AggPanics.checked_call_total without its percentile case
+   (which is the only one that needs args_ok and, through the bound on the rounded index, the reals) *)
 Lemma agg_np_free : forall a args, a <> APercentile ->
   can_accept (builtin_arity (agg_builtin a)) (length args) = true -> bi_agg a args <> Panic.
 Proof.
-  intros a args Hne Ha. destruct (args_ok_or_shape args) as [Hok|[vs [p ->]]]; [apply agg_np; assumption|].
-  destruct a; try congruence; cbn; discriminate.
+  intros a args Hne Ha.
+  assert (Ar : arity_ok (builtin_arity (agg_builtin a)) (length args) = true).
+  { revert Ha. unfold can_accept, arity_can_accept, arity_ok. destruct (builtin_arity (agg_builtin a)); auto. }
+  clear Ha.
+  assert (T : ok_or_err (bi_agg a args)).
+  { unfold ok_or_err.
+    assert (V : forall f, Aggregates.is_varargs f = true -> f <> AMedian ->
+                (exists v, bi_agg f args = Ok v) \/ bi_agg f args = Err).
+    { intros f Hf Hm. rewrite (Aggregates.bi_agg_collect f args Hf).
+      destruct (collect_nums_cases args) as [(ns & ->)| ->]; [|now right]. cbn [obind].
+      destruct ns; [now right|]. cbn [is_empty]. destruct f; try discriminate; try congruence; cbn; eauto. }
+    destruct a; cbn [bi_agg]; try congruence.
+    1-5: (apply (V AMin) || apply (V AMax) || apply (V AAvg) || apply (V ASum) || apply (V AProd));
+         [reflexivity|discriminate].
+    - assert (O := bi_median_outcome args).
+      destruct (Aggregates.collect_nums args) as [ns| | | |]; try (rewrite O; now right).
+      destruct ns as [|x ns]; [rewrite O; now right|]. cbn [is_empty] in O.
+      destruct (has_nan (x :: ns)); [rewrite O; eauto|]. destruct O as (v & ->). eauto.
+    - cbn in Ar. destruct args as [|a0 [|? ?]]; try discriminate.
+      unfold bi_any. cbn. destruct a0; cbn; eauto.
+    - cbn in Ar. destruct args as [|a0 [|? ?]]; try discriminate.
+      unfold bi_all. cbn. destruct a0; cbn; eauto.
+    - cbn in Ar. destruct args as [|a0 [|a1 [|? ?]]]; try discriminate.
+      unfold bi_dot. cbn. destruct a0; cbn; eauto. destruct a1; cbn; eauto.
+      destruct (negb (length l =? length l0)%nat); [now right|].
+      destruct (dot_loop_cases l0 l n0) as [(v & ->)| ->]; cbn; eauto. }
+  destruct T as [(v & ->)| ->]; discriminate.
 Qed.
 
 Ltac arity_facts Ha :=
@@ -185,9 +202,11 @@ Ltac in_table := cbn [In list_builtin_arms]; unfold list_builtin_arms; cbn [In];
   repeat (first [left; reflexivity | right]).
 
 (* ---------------- EvalFull.builtin_full: every transcribed built-in ---------------- *)
-Theorem builtin_full_no_panic : forall cb b args st,
+(* axiom-free core: percentile's own arm is the hypothesis (AggPanics discharges it from args_ok through
+   a bound on the rounded index proved over the reals, i.e. with the standard library's real-number axioms) *)
+Theorem builtin_full_no_panic_gen : forall cb b args st,
   cb_safe cb -> can_accept (builtin_arity b) (length args) = true ->
-  (b = B_percentile -> args_ok args) ->
+  (b = B_percentile -> bi_percentile args <> Panic) ->
   fst (builtin_full cb b args st) <> Panic.
 Proof.
   intros cb b args st Hcb Ha Hp.
@@ -202,7 +221,7 @@ Proof.
   - exact (agg_np_free ASum args ltac:(discriminate) Ha).
   - exact (agg_np_free AProd args ltac:(discriminate) Ha).
   - exact (agg_np_free AMedian args ltac:(discriminate) Ha).
-  - exact (agg_np APercentile args Ha (Hp eq_refl)).
+  - exact (Hp eq_refl).
   - apply range_no_panic.
   - apply (list_builtins_no_panic B_len); [in_table|exact Ha].
   - apply (list_builtins_no_panic B_head); [in_table|exact Ha].
@@ -230,18 +249,26 @@ Proof.
   - apply (list_builtins_no_panic B_zip); [in_table|exact Ha].
   - apply (list_builtins_no_panic B_chunk); [in_table|exact Ha].
 Qed.
-
-(* ---------------- EvalAll.builtin_all: every built-in of the table ---------------- *)
-Theorem builtin_all_no_panic : forall o cb b args st,
+Theorem builtin_full_no_panic : forall cb b args st,
   cb_safe cb -> can_accept (builtin_arity b) (length args) = true ->
   (b = B_percentile -> args_ok args) ->
+  fst (builtin_full cb b args st) <> Panic.
+Proof.
+  intros cb b args st Hcb Ha Hp. apply builtin_full_no_panic_gen; [exact Hcb|exact Ha|].
+  intros ->. exact (agg_np APercentile args Ha (Hp eq_refl)).
+Qed.
+
+(* ---------------- EvalAll.builtin_all: every built-in of the table ---------------- *)
+Theorem builtin_all_no_panic_gen : forall o cb b args st,
+  cb_safe cb -> can_accept (builtin_arity b) (length args) = true ->
+  (b = B_percentile -> bi_percentile args <> Panic) ->
   (b = B_format -> format_display_safe o args) ->
   (b = B_time_now -> o_now o <> None) ->
   fst (builtin_all o cb b args st) <> Panic.
 Proof.
   intros o cb b args st Hcb Ha Hp Hf Ht.
   destruct b; cbn [builtin_all];
-    try (apply builtin_full_no_panic; [exact Hcb|exact Ha|first [exact Hp|discriminate]]);
+    try (apply builtin_full_no_panic_gen; [exact Hcb|exact Ha|first [exact Hp|discriminate]]);
     unfold pure_bi; cbn [fst];
     try (apply trim_np; exact Ha); try (apply uppercase_np; exact Ha); try (apply lowercase_np; exact Ha);
     arity_facts Ha;
@@ -251,6 +278,17 @@ Proof.
   - apply format_np; [lia|exact (Hf eq_refl)].
   - apply print_np; lia.
   - apply time_now_np. exact (Ht eq_refl).
+Qed.
+
+Theorem builtin_all_no_panic : forall o cb b args st,
+  cb_safe cb -> can_accept (builtin_arity b) (length args) = true ->
+  (b = B_percentile -> args_ok args) ->
+  (b = B_format -> format_display_safe o args) ->
+  (b = B_time_now -> o_now o <> None) ->
+  fst (builtin_all o cb b args st) <> Panic.
+Proof.
+  intros o cb b args st Hcb Ha Hp Hf Ht. apply builtin_all_no_panic_gen; try assumption.
+  intros ->. exact (agg_np APercentile args Ha (Hp eq_refl)).
 Qed.
 
 (* the three side conditions are needed: each arm does panic in the model without its condition *)
